@@ -21,9 +21,9 @@ REQUIRED_ANCHORS = ['krylov_based.py:LanczosGroundState._rebuild_krylov_for_resu
                     'krylov_based.py:gram_schmidt', 'sparse.py:OrthogonalNpcLinearOperator.matvec',
                     'sparse.py:ShiftNpcLinearOperator.matvec', 'sparse.py:FlatLinearOperator.flat_to_npc']
 REQUIRED_COUNTERS = {'lanczos.runs': 100, 'lanczos.ncache_sweeps': 30, 'lanczos.reuse_histories': 20, 'evolution.runs': 50,
-                     'arnoldi.runs': 30, 'gmres.runs': 20, 'gram_schmidt.runs': 20, 'flat.runs': 20, 'ortho.runs': 20}
+                     'arnoldi.runs': 30, 'gmres.runs': 20, 'gram_schmidt.runs': 20, 'flat.runs': 20, 'ortho.runs': 20, 'lanczos_forced.runs': 20}
 KINDS = ['lanczos', 'lanczos', 'lanczos_ncache', 'lanczos_reuse', 'lanczos_ortho', 'evolution', 'evolution', 'arnoldi',
-         'arnoldi_evolution', 'gmres', 'gram_schmidt', 'flat', 'wrappers']
+         'arnoldi_evolution', 'gmres', 'gram_schmidt', 'flat', 'wrappers', 'lanczos_forced']
 
 
 def plan(tier, seed, jobs):
@@ -198,6 +198,50 @@ def check_ground_state(ctx, name, p, opts, E0, psi, N, case, H_dense=None, lam=N
         lam = np.linalg.eigvalsh(d[np.ix_(idx, idx)])
     if E0 < lam[0] - 1e-8 * scale:
         ctx.violation(name + ':below-smallest-eigenvalue' + tag, 'E0 %r lambda_min %r' % (E0, lam[0]), case)
+
+
+def do_lanczos_forced(ctx, rng):
+    """Iterations forced past convergence without re-orthogonalisation (N_min = N_max, well separated lowest eigenvalue): the Krylov
+    basis loses orthogonality, the result still has to come back normalised (it is normalised explicitly at the end), and an
+    evolution with an imaginary exponent still preserves the norm."""
+    import tenpy.linalg.np_conserved as npc
+    from tenpy.linalg.krylov_based import LanczosGroundState, LanczosEvolution
+    n = int(rng.integers(30, 70))
+    cplx = bool(rng.random() < 0.5)
+    q, _ = np.linalg.qr(rng.standard_normal((n, n)) + (1j * rng.standard_normal((n, n)) if cplx else 0))
+    w = np.concatenate([[-float(rng.uniform(3, 6))], rng.uniform(0, 1, n - 1)])
+    d = (q * w[None, :]) @ q.conj().T
+    d = (d + d.conj().T) / 2
+    A = npc.Array.from_ndarray_trivial(d, labels=['x', 'x*'])
+    v0 = rng.standard_normal(n) + (1j * rng.standard_normal(n) if cplx else 0)
+    psi0 = npc.Array.from_ndarray_trivial(v0, labels=['x'])
+    N = int(rng.integers(10, 22))
+    opts = {'N_min': N, 'N_max': N, 'reortho': False, 'P_tol': 1e-300, 'E_tol': 1e-300}
+    if rng.random() < 0.5:
+        opts['N_cache'] = int(rng.integers(2, N + 1))
+    case = {'kind': 'forced iterations', 'n': n, 'complex': cplx, 'options': opts, 'lowest': float(w[0])}
+    ctx.count('lanczos_forced.runs')
+    try:
+        E0, psi, N_done = LanczosGroundState(RecOp(A), psi0, dict(opts)).run()
+        v = psi.to_ndarray()
+        if not (abs(np.linalg.norm(v) - 1) <= 1e-12):
+            ctx.violation('lanczos:not-normalised:iterations-past-convergence', '|psi| - 1 = %g (N=%d, reortho=False)' %
+                          (np.linalg.norm(v) - 1, N_done), case)
+        lam = np.linalg.eigvalsh(d)
+        if E0 < lam[0] - 1e-8:
+            ctx.violation('lanczos:below-smallest-eigenvalue:iterations-past-convergence', 'E0 %r lambda_min %r' % (E0, lam[0]), case)
+        delta = -1j * float(rng.uniform(1, 6))
+        psi_t, N_t = LanczosEvolution(RecOp(A), psi0, dict(opts)).run(delta)
+        vt = psi_t.to_ndarray()
+        if not (abs(np.linalg.norm(vt) - 1) <= 1e-12):
+            ctx.violation('lanczos-evolution:norm-not-preserved:iterations-past-convergence', '|psi| - 1 = %g (N=%d, reortho=False)' %
+                          (np.linalg.norm(vt) - 1, N_t), case)
+    except Exception as e:
+        tb = traceback.format_exc()
+        if '/tenpy/' not in tb:
+            raise
+        ctx.violation('lanczos_forced:raises-%s' % type(e).__name__, tb[-600:], case)
+    return None
 
 
 def do_lanczos(ctx, rng):
